@@ -12,8 +12,10 @@ PAGE_SIZES_QUICK = [4096, 512]
 PAGE_SIZES_ALL = [512, 1024, 2048, 4096, 8192, 16384, 32768, 65536]
 
 
-def model_to_driver(sched):
-    """Translate a behaviour of Core.tla (list of [action, args...]) into driver steps."""
+def model_to_driver(sched, gated=False):
+    """Translate a behaviour of Core.tla (list of [action, args...]) into driver steps.
+    gated: the checkpoint sub-steps of the model become CkStart / CkStep (the litestream goroutine is parked at the
+    verif hooks between them, so application steps land exactly where the behaviour puts them)."""
     out = []
     for st in sched:
         a, args = st[0], st[1:]
@@ -46,7 +48,9 @@ def model_to_driver(sched):
         elif a == "SyncAndWait":
             out.append(["LsSyncAndWait"])
         elif a == "CkStart":
-            out.append(["LsCheckpoint", args[0]])
+            out.append(["CkStart" if gated else "LsCheckpoint", args[0]])
+        elif gated and a in ("CkBarrier", "CkRelease", "CkPragma", "CkUnbarrier", "CkBump", "CkFinish"):
+            out.append(["CkStep"])
         # Bump, Ck* sub-steps, Crash: no driver step (internal to the calls above)
     return out
 
